@@ -148,6 +148,35 @@ def judge(tree, decl):
     return a
 
 
+# --- XPath default namespace (XSD 1.1) ---------------------------------------------------------------
+
+def effective_default_namespace(own, inherited, target_namespace, default_xmlns):
+    """Namespace of unprefixed element names in a selector / field XPath: the component's own
+    xpathDefaultNamespace if present, else the one of <xs:schema>, else none ('')."""
+    v = own if own is not None else inherited
+    if v is None or v == '##local':
+        return ''
+    if v == '##targetNamespace':
+        return target_namespace
+    if v == '##defaultNamespace':
+        return default_xmlns or ''
+    return v
+
+
+def restrict(tree, selected, fields_found):
+    """The document as the constraint sees it: rows the selector does not match disappear, cells whose field
+    path matches nothing are absent."""
+    label, items = tree
+    out = []
+    for item in items:
+        if item[0] == 'elem':
+            out.append(('elem', restrict(item[1], selected, fields_found)))
+        elif selected:
+            _, kind, cells, nsmap = item
+            out.append(('row', kind, tuple(c if ok else None for c, ok in zip(cells, fields_found)), nsmap))
+    return (label, out)
+
+
 # --- ID / IDREF / IDREFS ----------------------------------------------------------------------------
 
 def judge_ids(occurrences, version):
